@@ -414,7 +414,7 @@ REG['C17'] = {
     'level': 'other',
     'design_ref': '5/C17',
     'technique': 'Kani on the index arithmetic of the day officer, twelve spirits, six-day star, minor Ren, year and month nine stars (real bodies, index-faithful cheap constructors) + Verus on the day and hour nine stars (real bodies, uninterpreted term-day table) + the defining recurrences executed exhaustively over every civil date, every lunar year and every (year branch, month) pair',
-    'level_text': 'Deductive part (Kani, all pillar pairs / all years): day officer == (day branch - month branch) mod 12 with Jian <=> equal, twelve spirits of day and hour, six-day star, minor Ren, year star, month star; (Verus, every day and any term table) day star of both views by the solstice-turning rule, hour star of the sexagenary-hour view. Bounded part (exhaustive execution over finite day/year domains, incl. the series that need term days): day officer == (day branch - month branch) mod 12 (Jian <=> equal) and +1 per day within a sexagenary month; twelve spirits start at the branch fixed by the month (hour: day) branch; 28 mansions +1 per day with luminary == weekday; six-day star (|month| + day - 2) mod 6; moon phase; minor Ren; year nine star descending from 1864 = 1, month star by branch group, day star turning at the Jiazi days nearest the solstices, hour star. The formulas are one-line index arithmetic wrapped in name-table objects (17 s per Kani harness and format!-bound), so the finite domains are enumerated by execution instead.',
+    'level_text': 'Deductive part (Kani, all pillar pairs / all years): day officer == (day branch - month branch) mod 12 with Jian <=> equal, twelve spirits of day and hour (both hour views), hour nine star of the lunar-hour view, six-day star, minor Ren, year star, month star; (Verus, every day and any term table) day star of both views by the solstice-turning rule, hour star of the sexagenary-hour view. Bounded part (exhaustive execution over finite day/year domains, incl. the series that need term days): day officer == (day branch - month branch) mod 12 (Jian <=> equal) and +1 per day within a sexagenary month; twelve spirits start at the branch fixed by the month (hour: day) branch; 28 mansions +1 per day with luminary == weekday; six-day star (|month| + day - 2) mod 6; moon phase; minor Ren; year nine star descending from 1864 = 1, month star by branch group, day star turning at the Jiazi days nearest the solstices, hour star. The formulas are one-line index arithmetic wrapped in name-table objects (17 s per Kani harness and format!-bound), so the finite domains are enumerated by execution instead.',
     'level_note': 'exhaustive over dates 0002..9998 and years -1..9999; hours: 12 double-hours of the 1st and 15th of every month; known findings in the reform-year windows (consequence of C03); LunarMonth month star is checked only up to the leap month (after it the deprecated lunar-month pillar is shifted by upstream design), SixtyCycleMonth for all months',
     'explanation': 'exhaustive execution of the recurrence contracts over their finite domains',
     'functions': ['SixtyCycleDay::get_duty / get_twelve_star / get_twenty_eight_star / get_nine_star', 'LunarDay::get_six_star / get_phase / get_minor_ren / get_nine_star', 'LunarYear::get_nine_star', 'LunarMonth::get_nine_star', 'SixtyCycleMonth::get_nine_star', 'SixtyCycleHour::get_twelve_star / get_nine_star', 'LunarHour::get_twelve_star / get_nine_star'],
